@@ -51,6 +51,20 @@ def judge(spec, inputs, out, ob):
             bad.append("feasible in-box point %s lies outside the tightened bounds %s" % (x, out["tb"]))
         if feas and any(lb[j] > ub[j] for j in range(nc)):
             bad.append("crossed bounds %s although %s is a solution" % (out["tb"], x))
+        # besides the given point: every point of the box when the box is small
+        size = 1
+        for j in range(nc):
+            size *= (hi[j] - lo[j] + 1)
+        if size <= 20000:
+            anyfeas = False
+            for p in itertools.product(*[range(lo[j], hi[j] + 1) for j in range(nc)]):
+                if all(sum(A[i][j] * p[j] for j in range(nc)) >= b[i] for i in range(nr)):
+                    anyfeas = True
+                    if any(not (lb[j] <= p[j] <= ub[j]) for j in range(nc)):
+                        bad.append("feasible in-box point %s lies outside the tightened bounds %s" % (list(p), out["tb"]))
+                        break
+            if anyfeas and any(lb[j] > ub[j] for j in range(nc)) and not bad:
+                bad.append("crossed bounds %s although the system has in-box solutions" % (out["tb"],))
         if any(lb[j] < lo[j] or ub[j] > hi[j] for j in range(nc)):
             bad.append("tightened bounds %s wider than declared %s" % (out["tb"], [lo, hi]))
     else:
